@@ -128,7 +128,25 @@ impl<'a> ProgGen<'a> {
         }
     }
 
+    /// A number literal with a very long mantissa and/or an extreme exponent.
+    pub fn long_literal(rng: &mut Rng) -> String {
+        let zeros = *rng.pick(&[0usize, 1, 17, 307, 308, 323, 324, 400, 1073, 1074, 1099, 1100, 1101, 1500, 5000]);
+        let exp = *rng.pick(&["", "e1", "e-1", "e308", "e-308", "e309", "e-324", "e400", "e-400", "e5000", "e-5000", "e99999999999", "e-99999999999", "E+400", "e+0"]);
+        let digits = *rng.pick(&["1", "5", "9", "123456789", "00001", "10"]);
+        let sign = if rng.chance(1, 4) { "-" } else { "" };
+        match rng.below(5) {
+            0 => format!("{sign}0.{}{digits}{exp}", "0".repeat(zeros)),
+            1 => format!("{sign}{digits}{}{exp}", "0".repeat(zeros)),
+            2 => format!("{sign}{}.{digits}{exp}", "9".repeat(zeros.max(1))),
+            3 => format!("{sign}0.{}{exp}", "0".repeat(zeros.max(1))),
+            _ => format!("{sign}{digits}.{}{digits}{exp}", "0".repeat(zeros)),
+        }
+    }
+
     pub fn num(&mut self) -> String {
+        if self.extreme_pct > 0 && self.rng.below(200) < self.extreme_pct {
+            return Self::long_literal(self.rng);
+        }
         if self.extreme_pct > 0 && self.rng.below(100) < self.extreme_pct {
             (*self.rng.pick(EXTREME)).to_string()
         } else {
@@ -773,7 +791,13 @@ impl<'a> ProgGen<'a> {
             "-1", "-1.5", "-1.25", "1.5", "0", "0.5", "-0.5", "2", "-2", "1e-300", "infinite", "-infinite", "-9223372036854775808", "9223372036854775807", "nan", "0.0", "3",
             "-0.0", "1e19", "-1e19", "7", "64", "63", "-63", "1024", "1e300",
         ];
-        let x = *self.rng.pick(XS);
+        let lit;
+        let x = if self.rng.chance(1, 5) {
+            lit = Self::long_literal(self.rng);
+            lit.as_str()
+        } else {
+            *self.rng.pick(XS)
+        };
         let y = *self.rng.pick(YS);
         let x2 = *self.rng.pick(XS);
         match self.rng.below(22) {
@@ -909,7 +933,7 @@ const SOUP: &[&str] = &[
     "@json", "@", "1", "0", "-1", "1e19", "1e1000", "nan", "infinite", "0x10", "1.", ".5", "1e", "length", "keys", "map", "select",
     "range", "limit", "first", "input", "inputs", "env", "now", "halt", "error", "tojson", "fromjson", "tostring", "implode", "setpath",
     "getpath", "paths", "del", "to_entries", "splits", "sub", "test", "ltrimstr", "日本", "é", "😀", "\u{0}", "\u{7f}", "\u{a0}", "\u{2028}",
-    "#c\n", "\n", "\t", " ", "..a", "?//", "::", "$", "$$", ".[", ".\"a\"", ".\"é\"", "reduce . as $x (0; .)", "[.[]|.]", "{a:1}", "{(.):.}",
+    "#c\n", "# c \\", "#\\é\n", "# a\\\n b\n", "#\\", "# é\\😀", "# x \\\\\n", "#\\\r\n1", "#", "# \\\\", "\n", "\t", " ", "..a", "?//", "::", "$", "$$", ".[", ".\"a\"", ".\"é\"", "reduce . as $x (0; .)", "[.[]|.]", "{a:1}", "{(.):.}",
 ];
 
 pub fn token_soup(rng: &mut Rng) -> String {
@@ -933,6 +957,20 @@ pub fn token_soup(rng: &mut Rng) -> String {
 /// Character-level mutation of a valid program (tokenizer / parser stress).
 pub fn mutate(rng: &mut Rng, prog: &str) -> String {
     let mut chars: Vec<char> = prog.chars().collect();
+    if rng.chance(1, 6) {
+        // a trailing or embedded comment, with the escapes a comment lexer may special-case
+        let tail = *rng.pick(&[" # c", " # c \\", " #\\", " # é\\", " # a\\\n b", " #\\é", " # \\\\", " #\\\r\n.", " # 😀\\😀"]);
+        if rng.chance(1, 2) || chars.is_empty() {
+            chars.extend(tail.chars());
+        } else {
+            let at = rng.usize_below(chars.len());
+            let mut t: Vec<char> = tail.chars().collect();
+            t.push('\n');
+            for (k, c) in t.into_iter().enumerate() {
+                chars.insert(at + k, c);
+            }
+        }
+    }
     let edits = rng.urange(1, 4);
     for _ in 0..edits {
         if chars.is_empty() {
@@ -984,7 +1022,21 @@ pub fn gen_input(rng: &mut Rng) -> String {
             0 => out.push_str("null"),
             1 => out.push_str(if rng.chance(1, 2) { "true" } else { "false" }),
             2 => out.push_str(&format!("{}", rng.below(1000) as i64 - 100)),
-            3 => out.push_str(*rng.pick(&["0", "-0", "1.5", "1e3", "1E-2", "9223372036854775807", "1e400", "-1e400", "0.1", "123456789012345678901234567890", "1.000", "3"])),
+            3 => {
+                if rng.chance(1, 10) {
+                    // keep it a valid JSON number: no leading zeros in the integer part
+                    let lit = ProgGen::long_literal(rng);
+                    let (sign, rest) = lit.strip_prefix('-').map_or(("", lit.as_str()), |r| ("-", r));
+                    let int_len = rest.find(|c: char| !c.is_ascii_digit()).unwrap_or(rest.len());
+                    let (int_part, tail) = rest.split_at(int_len);
+                    let trimmed = int_part.trim_start_matches('0');
+                    out.push_str(sign);
+                    out.push_str(if trimmed.is_empty() { "0" } else { trimmed });
+                    out.push_str(&tail.replace("E+", "e+"));
+                } else {
+                    out.push_str(*rng.pick(&["0", "-0", "1.5", "1e3", "1E-2", "9223372036854775807", "1e400", "-1e400", "0.1", "123456789012345678901234567890", "1.000", "3"]));
+                }
+            }
             4 | 5 => out.push_str(*rng.pick(&["\"\"", "\"a\"", "\"abc\"", "\"é\"", "\"日本語\"", "\"😀\"", "\"a\\nb\"", "\"\\u00e9\"", "\"1\"", "\"a,b\"", "\"[1]\"", "\"\\ud83d\\ude00\"", "\"x y z\""])),
             6 => out.push_str("[]"),
             7 | 8 => {
